@@ -256,7 +256,8 @@ def main(tier):
             norm = lambda ls: [l for j, l in enumerate(ls) if not (l.startswith('#program') and (j + 1 == len(ls) or ls[j + 1].startswith('#program')))]
             if norm(got) != norm(expected):
                 j = next((x for x, (a, c) in enumerate(zip(norm(got), norm(expected))) if a != c), min(len(got), len(expected)))
-                run.violation('removal/other-rules-change', f'removing "{sents[i][:80]}" changes another rule (position {j})',
+                bykey = '/by-preposition' if re.search(r'\b(?:is|be|are) (?:not )?\w+ by\b', sents[i]) else ''
+                run.violation('removal/other-rules-change' + bykey, f'removing "{sents[i][:80]}" changes another rule (position {j})',
                               dict(replay, without=norm(got)[max(0, j - 1):j + 2], expected=norm(expected)[max(0, j - 1):j + 2]))
         for i, pre, later_a, later_b in r.get('context', []):
             run.count(('context', text, i))
